@@ -10,7 +10,7 @@
    [bytes_ok b]        = every element of b is below 256 (b is a byte string: the model's bytes are N).
    [b] ranges over ALL byte strings, values over all nestings and all mixtures of the two epochs. *)
 From Aldrin Require Import Codec.Base Codec.Value Codec.De Codec.Skip Codec.Convert Props.C13_lemmas
-  Codec.ConvertProofs Codec.ConvertIdem.
+  Codec.ConvertProofs Codec.ConvertIdem Codec.ConvertBytes.
 Open Scope N_scope.
 
 (* converting a well-formed value succeeds and the result decodes to the same value *)
@@ -37,6 +37,11 @@ Theorem C13_v1_only_wellformed : forall b, v1_only b = true ->
   skip_value b = Ok [] /\ exists k r, b = k :: r /\ k <= 42.
 Proof. exact (fun b H => conj (v1_only_skippable b H) (v1_only_first b H)). Qed.
 Print Assumptions C13_v1_only_wellformed.
+
+(* the result is again a byte string, so every theorem here applies to it in turn *)
+Theorem C13_output_bytes : forall b b' r, bytes_ok b = true -> conv_value b = Ok (b', r) -> bytes_ok b' = true.
+Proof. exact conv_value_bytes_ok. Qed.
+Print Assumptions C13_output_bytes.
 
 (* converting twice equals converting once *)
 Theorem C13_idempotent : forall b b', bytes_ok b = true ->
